@@ -71,6 +71,8 @@ Proof.
       split; [|exact B]. constructor; cbn [en ch out px cp app running loopq]; try assumption; reflexivity.
     + discriminate Sf.
     + discriminate Sf.
+    + (* AppDone: no application *)
+      rewrite Ia. cbn [andb]. left. split; [exact Ifull|exact B].
   - (* regime 1 *)
     destruct (app_alive l) eqn:AL.
     { right. now apply I1_step. }
